@@ -53,6 +53,7 @@ class Printer(object):
         self.axioms = []
         self.apps = {}      # fname -> list of (app term)
         self.has_int = False
+        self.nonlinear = False
         self.varsorts = {}
 
     def ref(self, t):
@@ -94,8 +95,14 @@ class Printer(object):
                 self.apps.setdefault(a[0], []).append(s)
                 continue
             if op == 'add': e = '(+ %s %s)' % (a[0], a[1])
-            elif op == 'mul': e = '(* %s %s)' % (a[0], a[1])
-            elif op == 'div': e = '(/ %s %s)' % (a[0], a[1])
+            elif op == 'mul':
+                e = '(* %s %s)' % (a[0], a[1])
+                if s.args[0].op != 'const' and s.args[1].op != 'const':
+                    self.nonlinear = True
+            elif op == 'div':
+                e = '(/ %s %s)' % (a[0], a[1])
+                if s.args[1].op != 'const':
+                    self.nonlinear = True
             elif op == 'ite': e = '(ite %s %s %s)' % (a[0], a[1], a[2])
             elif op == 'lt': e = '(< %s %s)' % self._coerce2(s)
             elif op == 'le': e = '(<= %s %s)' % self._coerce2(s)
@@ -258,7 +265,8 @@ def to_smt2(assumptions, goal, logic=None, extra_axioms=(), relax=False):
         body.append('(assert %s)' % p.ref(a))
     body.append('(assert (not %s))' % p.ref(goal))
     pure_real = not p.has_int
-    return '\n'.join(body) + '\n', pure_real, dict(p.varsorts)
+    head = '; linear\n' if (pure_real and not p.nonlinear and not p.apps) else ''
+    return head + '\n'.join(body) + '\n', pure_real, dict(p.varsorts)
 
 
 def _z3_value(v):
@@ -280,7 +288,9 @@ def _z3_value(v):
 def solve_z3(text, pure_real, timeout_ms):
     import z3
     t0 = time.time()
-    s = z3.SolverFor('QF_NRA') if pure_real else z3.Solver()
+    # a pure-real problem without products of unknowns (e.g. after ring abstraction) goes to the linear-arithmetic solver: the nonlinear one handles
+    # Boolean structure over many conditionals badly
+    s = (z3.SolverFor('QF_LRA') if text.startswith('; linear') else z3.SolverFor('QF_NRA')) if pure_real else z3.Solver()
     s.set('timeout', int(timeout_ms))
     try:
         s.from_string(text)
